@@ -87,8 +87,8 @@ def SReport.spec : SReport → Report Seq
   | .focus g => .focus g
   | .pasteStart => .pasteStart
   | .pasteEnd => .pasteEnd
-  | .reply _ => .reply "reply"
-  | .inband .. => .replyInband
+  | .reply _ => .reply "reply" none
+  | .inband .. => .replyInband none
   | .theme m => .replyTheme m
 
 /-- Application-visible image of a model event. -/
